@@ -112,6 +112,18 @@ def flows(ctx, f, enum_name, variant, pos, callees, uses_ok=False):
         for x in (y for val in vals for y in vt.walk(val)):
             if x.get('k') == 'payload' and str(x.get('variant', '')).endswith(full) and (str(x.get('field')) == str(pos) or str(x.get('pos')) == str(pos)):
                 return True
+        # or-patterns (`A(ty) | B(ty, _) | C(ty) => f(ty)`): one binding stands for the payload of every alternative; the evaluator
+        # records it as the payload of the first one — so look the name bound at (variant, pos) up in the arm's own pattern
+        e = next((i for i in ctx.astq['items'] if i['kind'] == 'enum' and i['name'] == enum_name), None)
+        var = next((w for w in (e or {}).get('variants', []) if w['name'] == variant), None)
+        if var is not None:
+            for fr in c.get('guard', []):
+                if fr.get('k') != 'arm' or not any(full in str(x) for x in fr.get('variants', [])):
+                    continue
+                b = alt_bindings(str(fr.get('pat', '')), enum_name, variant, [f_['name'] for f_ in var['fields']], var.get('kind'))
+                name = (b or {}).get(str(pos))
+                if name and any(y.get('k') == 'var' and y.get('name') == name for val in vals for y in vt.walk(val)):
+                    return True
     return False
 
 
